@@ -87,6 +87,60 @@ def in_loop(cond):
     return any(t[0] == "inloop" for t, _ in cond)
 
 
+def kernel_sequence_obligations(ctx, rule, events):
+    """Each KernelSequence method calls the same-named kernel method once per kernel and
+    hands every kernel the sequence's own arguments (shared with C12.R3 for tune)."""
+    repo = ctx.repo
+    ks = repo.cls("liesel.goose.kernel_sequence.KernelSequence")
+    n_ok = 0
+    for m in events:
+        kname = "init_state" if m == "init_states" else m
+        mfi = method(repo, ks, m, own=True)
+        rm = evaluate(repo, mfi)
+        kcalls = [(t, cond) for t, _, cond in rm.calls
+                  if t[1][0] == "a" and t[1][2] == kname
+                  and any(x[0] == "iter" for x in subterms(t[1][1]))]
+        one = len(kcalls) == 1
+        over = False
+        if one:
+            its = [x for x in subterms(kcalls[0][0][1][1]) if x[0] == "iter"]
+            over = any(y == ("a", n("self"), "_kernels") for x in its for y in subterms(x))
+        ctx.ob(rule, mfi, f"KernelSequence.{m} calls kernel.{kname} exactly once for "
+                              f"each kernel of self._kernels", one and over,
+               detail=f"{len(kcalls)} call site(s)", stmt=f"{m} -> {kname}")
+        n_ok += 1
+        if not one:
+            continue
+        # every kernel sees the sequence's own arguments: nothing is rebound between
+        # kernels (except the model state that transition threads through)
+        proto = repo.cls("liesel.goose.types.Kernel").own_method(kname)
+        pnames = [p for p in proto.params() if p != "self"] if proto is not None else []
+        own = [p for p in mfi.params() if p != "self"]
+        call = kcalls[0][0]
+        first = 1 if m == "init_states" else 2
+        for j in range(first, len(own)):
+            arg = kw(call, pnames[j], j) if j < len(pnames) else (
+                call[2][j] if j < len(call[2]) else None)
+            par = n(own[j])
+            if arg == par:
+                ok_a = True
+            elif m == "transition" and own[j] == "model_state":
+                ok_a = arg == ("carried", "model_state", par)
+            elif m == "end_warmup" and arg is not None:
+                # the kernel's own slice of the tuning history (None stays None)
+                own_slice = ("s", par, ("a", call[1][1], "identifier"))
+                ok_a = arg == own_slice or arg == phi_(cmp_("is", par, c(None)), c(None),
+                                                       own_slice)
+            else:
+                ok_a = False
+            ctx.ob(rule, mfi, f"every kernel.{kname} call receives the sequence's own "
+                                  f"'{own[j]}' argument (not a value rebound while looping "
+                                  f"over the kernels)", ok_a, detail=short(arg or ()),
+                   stmt=f"{m} passes {own[j]}: " + pretty(arg or ())[:80])
+    return n_ok
+
+
+
 def check(ctx):
     repo = ctx.repo
     ctx.rule("R1", "no kernel event is reachable in the initial-values epoch.")
@@ -523,24 +577,7 @@ def check(ctx):
                facts={"members": members, "true_for": sorted(got)})
 
     # ------------------------------------------------------------- R8 kernel sequence
-    ks = repo.cls("liesel.goose.kernel_sequence.KernelSequence")
-    n_ok = 0
-    for m in EVENTS:
-        kname = "init_state" if m == "init_states" else m
-        mfi = method(repo, ks, m, own=True)
-        rm = evaluate(repo, mfi)
-        kcalls = [(t, cond) for t, _, cond in rm.calls
-                  if t[1][0] == "a" and t[1][2] == kname
-                  and any(x[0] == "iter" for x in subterms(t[1][1]))]
-        one = len(kcalls) == 1
-        over = False
-        if one:
-            its = [x for x in subterms(kcalls[0][0][1][1]) if x[0] == "iter"]
-            over = any(y == ("a", n("self"), "_kernels") for x in its for y in subterms(x))
-        ctx.ob("C07.R8", mfi, f"KernelSequence.{m} calls kernel.{kname} exactly once for "
-                              f"each kernel of self._kernels", one and over,
-               detail=f"{len(kcalls)} call site(s)", stmt=f"{m} -> {kname}")
-        n_ok += 1
+    n_ok = kernel_sequence_obligations(ctx, "C07.R8", EVENTS)
     ctx.require_min("KernelSequence lifecycle methods", n_ok, 6)
 
     # sample_all_epochs drives sample_next_epoch while epochs remain
